@@ -4,6 +4,8 @@ import (
 	"flag"
 	"fmt"
 	"math/rand"
+	"strconv"
+	"strings"
 
 	simdjson "github.com/minio/simdjson-go"
 
@@ -19,6 +21,14 @@ import (
 // pairs; serializers and destinations reused across the whole run.
 func init() {
 	register("v-serbig", "round-trip large by-construction tapes through every mode pair (C11)", vserbig)
+}
+
+func mustRead(pj *simdjson.ParsedJson) []abs.Value {
+	v, err := read.All[0].F(pj)
+	if err != nil {
+		return nil
+	}
+	return v
 }
 
 func vserbig(args []string) error {
@@ -132,6 +142,112 @@ func vserbig(args []string) error {
 			}
 		}
 		rep.Sample(map[string]interface{}{"doc": d.name, "bytes": len(text)}, 10)
+	}
+	// (f) in-place edits right at the flush boundaries of the tag buffer (64 Ki tags) and of the value buffer (64 KiB = 8192 words):
+	// one element deleted / nulled / replaced by a string at every position around the boundary, NOP runs of 1, 2 and 4 words
+	{
+		n := 70000
+		var sb strings.Builder
+		sb.WriteString("[")
+		for i := 0; i < n; i++ {
+			if i > 0 {
+				sb.WriteString(",")
+			}
+			switch {
+			case i%97 == 5:
+				sb.WriteString(`"s"`)
+			case i%89 == 7:
+				sb.WriteString(`[1]`)
+			default:
+				sb.WriteString(strconv.Itoa(i % 10))
+			}
+		}
+		sb.WriteString("]")
+		text := []byte(sb.String())
+		// element -> index of its first tag in the tag stream (root, '[' come first; a number or string is one tag, [1] is three)
+		// and index of its first word in the value stream (root, '[' and every number, nested '[' one word; strings two)
+		var positions []int
+		tagIdx, valIdx := 2, 2
+		for i := 0; i < n; i++ {
+			for _, c := range []int{65536, 131072} {
+				if tagIdx >= c-6 && tagIdx <= c+3 {
+					positions = append(positions, i)
+				}
+			}
+			for _, c := range []int{8192, 16384, 65536} {
+				if valIdx >= c-5 && valIdx <= c+2 {
+					positions = append(positions, i)
+				}
+			}
+			switch {
+			case i%97 == 5:
+				tagIdx, valIdx = tagIdx+1, valIdx+2
+			case i%89 == 7:
+				tagIdx, valIdx = tagIdx+3, valIdx+2
+			default:
+				tagIdx, valIdx = tagIdx+1, valIdx+1
+			}
+		}
+		for pi, pos := range positions {
+			pj, err := run.Parse(append([]byte{}, text...), run.Cfg{AVX512: run.HasAVX512, Copy: true}, nil)
+			if err != nil {
+				rep.Add(run.Mismatch{Property: *prop, Sig: "parse:edit-at-boundary", Want: "accept", Got: err.Error()})
+				break
+			}
+			it := pj.Iter()
+			it.Advance()
+			_, ri, _ := it.Root(nil)
+			arr, aerr := ri.Array(nil)
+			if aerr != nil {
+				break
+			}
+			k := 0
+			switch pi % 3 {
+			case 0: // delete one element (and its neighbour on every fourth position)
+				arr.DeleteElems(func(simdjson.Iter) bool { k++; return k-1 == pos || (pi%4 == 0 && k-1 == pos+1) })
+			case 1:
+				arr.ForEach(func(e simdjson.Iter) {
+					if k == pos {
+						e.SetNull()
+					}
+					k++
+				})
+			default:
+				arr.ForEach(func(e simdjson.Iter) {
+					if k == pos && (e.Type() == simdjson.TypeInt || e.Type() == simdjson.TypeString) {
+						e.SetString("replacement")
+					}
+					k++
+				})
+			}
+			want, rerr := read.All[0].F(pj)
+			if rerr != nil {
+				rep.Add(run.Mismatch{Property: *prop, Sig: fmt.Sprintf("read-after-edit-at:%d", pos), Want: "readable", Got: rerr.Error()})
+				continue
+			}
+			for _, modes := range [][2]int{{0, 0}, {1, 2}, {3, 1}} {
+				func() {
+					defer func() {
+						if p := recover(); p != nil {
+							rep.Add(run.Mismatch{Property: *prop, Sig: fmt.Sprintf("panic:edit-at-%d:%d", pos, modes[0]), Cfg: map[string]interface{}{"edited_element": pos, "edit": pi % 3, "ser_mode": modes[0]}, Want: "no panic", Got: fmt.Sprint(p)})
+						}
+					}()
+					s, ds := sers[0], sers[1]
+					s.CompressMode(simdjson.CompressMode(modes[0]))
+					ds.CompressMode(simdjson.CompressMode(modes[1]))
+					back, err := ds.Deserialize(s.Serialize(nil, *pj), nil)
+					rep.Evaluations++
+					if err != nil {
+						rep.Add(run.Mismatch{Property: *prop, Sig: fmt.Sprintf("deser:edit-at-%d:%d", pos, modes[0]), Cfg: map[string]interface{}{"edited_element": pos, "edit": pi % 3, "ser_mode": modes[0]}, Want: "round trip", Got: err.Error()})
+						return
+					}
+					if cerr := read.CompareRoots(want, mustRead(back), true); cerr != nil {
+						rep.Add(run.Mismatch{Property: *prop, Sig: fmt.Sprintf("doc:edit-at-%d:%d", pos, modes[0]), Cfg: map[string]interface{}{"edited_element": pos, "edit": pi % 3, "ser_mode": modes[0]}, Want: "the same document", Got: "different", Detail: cerr.Error()})
+					}
+					rep.Nontrivial++
+				}()
+			}
+		}
 	}
 	rep.Cases = int64(len(docs) * 2)
 	return rep.Write(*out)
